@@ -17,15 +17,17 @@
 (***************************************************************************)
 EXTENDS Integers, Sequences, FiniteSets
 
-CONSTANT Seeds      \* sequence of [id, dec, len, mlen, ntab]
+CONSTANT Seeds      \* sequence of [id, dec, len, mlen, ntab, ngid]
 
 Decoders == {"sfnt", "header", "cff", "cmap", "glyf", "GSUB", "GPOS", "GDEF", "coverage", "coverset",
              "classdef", "name", "head", "hmtx", "maxp", "os2", "post", "kern"}
 
 \* ------------------------------------------------------------------ the fault plan
-Kinds == <<"orig", "trunc", "word", "flip", "ff", "inc", "dec", "drop">>
+Kinds == <<"orig", "trunc", "word", "flip", "ff", "inc", "dec", "pair", "drop">>
 KindSet == {Kinds[i] : i \in DOMAIN Kinds}
 NumValues == 10
+NumGidValues == 3
+NumTriggers == 3
 \* the replacement values of kind "word": 0, 1, 2, 0x7FFF, 0x8000, 0xFFFE, 0xFFFF, len-1, len, len+1
 WordValue(v, len) ==
   CASE v = 1 -> 0 [] v = 2 -> 1 [] v = 3 -> 2 [] v = 4 -> 32767 [] v = 5 -> 32768 [] v = 6 -> 65534
@@ -38,18 +40,25 @@ WordValue(v, len) ==
 \*   flip   every byte below mlen with its top bit flipped;  ff: set to 0xFF
 \*   inc    every byte below mlen replaced by b+1 (mod 256);  dec: by b-1 -- the "value = count"
 \*          and "one less" boundary of byte-sized fields (FD indices, offSize, nLeft, formats)
+\*   pair   whole fonts, cross-table consistency: each of the ngid glyph-id-valued words the harness's
+\*          walker found (cmap deltas / glyph arrays / groups, maxp and hhea and post counts, kern pairs,
+\*          composite components, GSUB/GPOS coverage glyphs) set to numGlyphs, numGlyphs+1, 0xFFFF
+\*          (NumGidValues), combined with each trigger that switches the reader's fall-backs on
+\*          (NumTriggers: none; OS/2 xHeight and capHeight zeroed; OS/2 table removed)
 \*   drop   whole fonts: every table removed from the directory in turn
 Planned(s, kind) ==
   CASE kind = "orig" -> 1
     [] kind \in {"trunc", "flip", "ff", "inc", "dec"} -> s.mlen
     [] kind = "word" -> s.mlen \div 2
+    [] kind = "pair" -> s.ngid * NumGidValues * NumTriggers
     [] kind = "drop" -> s.ntab
 
 Cell(s, kind, v) == [seed |-> s.id, kind |-> kind, v |-> v, n |-> Planned(s, kind)]
 CellsOf(s) ==
   LET all == <<Cell(s, "orig", 0), Cell(s, "trunc", 0)>>
              \o [v \in 1..NumValues |-> Cell(s, "word", v)]
-             \o <<Cell(s, "flip", 0), Cell(s, "ff", 0), Cell(s, "inc", 0), Cell(s, "dec", 0), Cell(s, "drop", 0)>>
+             \o <<Cell(s, "flip", 0), Cell(s, "ff", 0), Cell(s, "inc", 0), Cell(s, "dec", 0), Cell(s, "pair", 0),
+                 Cell(s, "drop", 0)>>
   IN SelectSeq(all, LAMBDA c : c.n > 0)
 
 RECURSIVE PlanFrom(_)
@@ -59,7 +68,8 @@ Plan == PlanFrom(1)          \* at most a few hundred seeds: the recursion is sh
 SeedsOK ==
   /\ \A i \in DOMAIN Seeds :
        /\ Seeds[i].id = i /\ Seeds[i].dec \in Decoders
-       /\ Seeds[i].len > 0 /\ Seeds[i].mlen > 0 /\ Seeds[i].mlen <= Seeds[i].len /\ Seeds[i].ntab >= 0
+       /\ Seeds[i].len > 0 /\ Seeds[i].mlen > 0 /\ Seeds[i].mlen <= Seeds[i].len /\ Seeds[i].ntab >= 0 /\ Seeds[i].ngid >= 0
+       /\ (Seeds[i].dec # "sfnt" => Seeds[i].ntab = 0 /\ Seeds[i].ngid = 0)
   /\ \A d \in Decoders : \E i \in DOMAIN Seeds : Seeds[i].dec = d       \* every decoder of the property has a seed
 
 \* ------------------------------------------------------------------ the contract
